@@ -63,3 +63,18 @@ Definition tables_okb : bool :=
   same_set supported_types documented_types && same_set conn_no_fanin no_fanin_types &&
   same_set conn_single_fanin single_fanin_types && same_set conn_no_fanout [BbIn] && same_set conn_bbout [BbOut] &&
   same_set add_single_fanin [Buf; Not] && same_set add_no_fanin [C0; C1; CX; Input].
+
+(* ---------------------------------------------------------------- add with the flags the parsers use *)
+(* add(..., add_connected_nodes, allow_redefinition) is outside the property text (it speaks of default flags and uid=True);
+   the op set of the model is extended by it so that the correspondence run and the oracle cover these calls as well *)
+Inductive xop := XO (o : op) | XAdd (n : string) (t : gtype) (fi fo : list string) (fl : add_flags).
+Definition xstep (C : Circuit) (x : xop) : Circuit * outcome :=
+  match x with
+  | XO o => step C o
+  | XAdd n t fi fo fl => let '(g, oc, _) := add_g (c_g C) n t fi fo fl in (with_g C g, oc)
+  end.
+(* what survives allow_redefinition=True (which may retype a wired node): edges end at nodes, types are documented ones *)
+Definition wired0 (c : circuit) : Prop := closed' c ∧ map_Forall (λ _ i, n_ty i ∈ documented_types) c.
+Global Instance wired0_dec c : Decision (wired0 c). Proof. unfold wired0, closed'. apply _. Defined.
+Definition Inv0 (C : Circuit) : Prop := wired0 (c_g C).
+Definition inv0b (C : Circuit) : bool := bool_decide (Inv0 C).
